@@ -30,6 +30,7 @@ def tasks(tier):
     t = [("t_keys", {}), ("t_roundtrip", {"postfixes": [None]}), ("t_roundtrip", {"postfixes": ["a"]}),
          ("t_roundtrip", {"postfixes": ["a", "b"]}), ("t_roundtrip", {"postfixes": ["7", None, "x_y"]}),
          ("t_roundtrip", {"postfixes": [0, 1]}), ("t_roundtrip", {"postfixes": ["", "0"]}),
+         ("t_roundtrip", {"postfixes": ["run-1", "run1", "run 1"]}), ("t_roundtrip", {"postfixes": ["0.5", "05", "z=-1e5", "z=1e-5"]}),
          ("t_corrupt", {}), ("t_filenames", {})]
     if tier == "thorough":
         t += [("t_roundtrip", {"postfixes": list(p)}) for p in it.permutations(["1", "2", "10"])]
@@ -211,7 +212,8 @@ def t_roundtrip(sess, postfixes):
         sess.satisfiable(f"{pt}: reach", p.pc)
         want_keys = sorted(f"{n}{'' if pf is None else '_' + str(pf)}" for pf in postfixes for n in ("meta", "fractions", "orientations"))
         if not (None in postfixes and len(postfixes) > 1):
-            sess.prove(f"{pt}: the archive holds exactly the keys meta/fractions/orientations (+ '_postfix') of every saved mineral", p.pc,
+            sess.prove(f"{pt}: the archive holds exactly the keys meta/fractions/orientations + '_' + str(postfix) of every saved mineral "
+                       f"(the real key is the literal concatenation, for which t_keys shows collision freedom over all strings)", p.pc,
                        z3.BoolVal(files.get("arch.npz") == want_keys))
         for m, snaps, ords, pf, a, b in loaded:
             if None in postfixes and len(postfixes) > 1 and pf is not None and postfixes.index(pf) < postfixes.index(None):
@@ -350,7 +352,7 @@ def replay_postfixes(case):
     f = os.path.join(d, "m.npz")
     problems = []
     ms = {}
-    for i, pf in enumerate([0, "", "x_y", "7", 12]):
+    for i, pf in enumerate([0, "", "x_y", "7", 12, "run-1", "run1", "0.5", "05"]):
         m = pydrex.Mineral(phase=i % 2, fabric=core.MineralFabric.olivine_B if i % 2 == 0 else core.MineralFabric.enstatite_AB,
                            regime=core.DeformationRegime(i % 8), n_grains=3 + i, seed=i)
         m.fractions.append(m.fractions[0][::-1].copy())
